@@ -32,7 +32,7 @@ def check(ctx):
     if R is None:
         return
     # ---- tree counter ----
-    n = core.adopt(ctx, c02, lambda o: o["rule"] == "C02.c" and ("counter" in o["key"]), "C11.counter")
+    n = core.adopt(ctx, c02, lambda o: o["rule"] == "C02.c" and ("counter" in o["key"] or "run-path-always-replays" in o["key"]), "C11.counter")
     ctx.floor("C11.counter", n, 3, "shared counter obligations")
     ct = A.TABLE["counter_type"]
     writers = set()
